@@ -1,7 +1,7 @@
 //! C17 — PROJ strings are translated without changing their meaning.
 //!
 //! Program tree: PROJ pipelines of 1..3 steps over the operators both systems share x per-step
-//! {inv, omit_fwd, omit_inv} x pipeline-level {none, inv} x globals {none, ellps, a key clashing
+//! {inv, omit_fwd, omit_inv, inv + omit_fwd, inv + omit_inv} x pipeline-level {none, inv} x globals {none, ellps, a key clashing
 //! with a step-local one} x '+' prefix styles x layouts. Oracle: an independent translator in the
 //! harness renders the hand-written Geodesy counterpart (instantiated in a Minimal context);
 //! Plain::op(PROJ) must have the same fingerprint; pipeline-level inv must be exactly the inverse
@@ -18,7 +18,7 @@ use std::sync::Mutex;
 #[derive(Clone, Debug)]
 struct PStep {
     kind: usize,
-    modifier: u8, // 0 none, 1 inv, 2 omit_fwd, 3 omit_inv
+    modifier: u8, // 0 none, 1 inv, 2 omit_fwd, 3 omit_inv, 4 inv + omit_fwd, 5 inv + omit_inv
 }
 
 /// (proj name, PROJ args, geodesy args)
@@ -50,7 +50,7 @@ struct PProg {
 }
 
 fn modifier_text(m: u8) -> &'static str {
-    ["", "inv", "omit_fwd", "omit_inv"][m as usize]
+    ["", "inv", "omit_fwd", "omit_inv", "inv omit_fwd", "inv omit_inv"][m as usize]
 }
 
 fn render_proj(p: &PProg) -> String {
@@ -73,14 +73,14 @@ fn render_proj(p: &PProg) -> String {
         }
         let m = modifier_text(st.modifier);
         if p.mod_first && !m.is_empty() {
-            g.push(m.to_string());
+            g.extend(m.split(' ').map(|s| s.to_string()));
         }
         g.push(format!("proj={}", KINDS[st.kind].0));
         if !KINDS[st.kind].1.is_empty() {
             g.extend(KINDS[st.kind].1.split(' ').map(|s| s.to_string()));
         }
         if !p.mod_first && !m.is_empty() {
-            g.push(m.to_string());
+            g.extend(m.split(' ').map(|s| s.to_string()));
         }
         tokens.push(g);
     }
@@ -193,8 +193,76 @@ fn check(p: &PProg) -> Result<u64, (String, Value)> {
     }
 }
 
+/// Greedy minimisation of a failing program: drop steps, modifiers and options while the same
+/// clause (the text before " / ") still fails, so that one root cause is reported under one key
+fn minimise(p: &PProg, first: (String, Value)) -> (String, Value) {
+    let clause = |k: &str| k.split(" / ").next().unwrap_or("").to_string();
+    let want = clause(&first.0);
+    if want.starts_with("machinery") {
+        return first;
+    }
+    let mut best = p.clone();
+    let mut best_err = first;
+    loop {
+        let mut candidates: Vec<PProg> = Vec::new();
+        for i in 0..best.steps.len() {
+            if best.steps.len() > 2 {
+                let mut c = best.clone();
+                c.steps.remove(i);
+                candidates.push(c);
+            }
+            if best.steps[i].modifier != 0 {
+                let mut c = best.clone();
+                c.steps[i].modifier = 0;
+                candidates.push(c);
+                if best.steps[i].modifier >= 4 {
+                    for m in [1, best.steps[i].modifier - 2] {
+                        let mut c = best.clone();
+                        c.steps[i].modifier = m;
+                        candidates.push(c);
+                    }
+                }
+            }
+            if best.steps[i].kind != 1 {
+                let mut c = best.clone();
+                c.steps[i].kind = 1; // helmert: the plainest invertible step
+                candidates.push(c);
+            }
+        }
+        for f in 0..5 {
+            let mut c = best.clone();
+            match f {
+                0 if c.pipeline_inv => c.pipeline_inv = false,
+                1 if c.globals != 0 => c.globals = 0,
+                2 if c.plus != 0 => c.plus = 0,
+                3 if c.layout != 0 => c.layout = 0,
+                4 if c.mod_first => c.mod_first = false,
+                _ => continue,
+            }
+            candidates.push(c);
+        }
+        let mut improved = false;
+        for c in candidates {
+            if let Err(e) = check(&c) {
+                if clause(&e.0) == want {
+                    best = c;
+                    best_err = e;
+                    improved = true;
+                    break;
+                }
+            }
+        }
+        if !improved {
+            break;
+        }
+    }
+    let mut d = best_err.1;
+    d["found_in"] = json!(render_proj(p));
+    (best_err.0, d)
+}
+
 fn enumerate(rep: &Report, kinds: &[usize], len: usize, label: &str) {
-    let step_variants: Vec<PStep> = kinds.iter().flat_map(|&k| (0..4u8).map(move |m| PStep { kind: k, modifier: m })).collect();
+    let step_variants: Vec<PStep> = kinds.iter().flat_map(|&k| (0..6u8).map(move |m| PStep { kind: k, modifier: m })).collect();
     let a = step_variants.len();
     // options: pipeline_inv(2) x globals(3) x plus(3) x layout(3) x explicit(2) x mod_first(2)
     let opt_radix = [2usize, 3, 3, 3, 2, 2];
@@ -219,7 +287,7 @@ fn enumerate(rep: &Report, kinds: &[usize], len: usize, label: &str) {
         rep.state(1);
         rep.transition(len as u64);
         rep.trace(1);
-        match check(&p) {
+        match check(&p).map_err(|first| minimise(&p, first)) {
             Ok(h) => {
                 outcomes.lock().unwrap().insert(h);
                 if i % (total / 3 + 1) == 0 {
@@ -305,7 +373,7 @@ fn refusals_and_passthrough(rep: &Report) {
 
 pub fn run(tier: Tier) -> Report {
     let rep = Report::new("C17", tier, "model_checking");
-    rep.rule("every PROJ pipeline of 1..L steps over (operator kind x {none, inv, omit_fwd, omit_inv}) x (pipeline inv, globals, + style, layout, explicit proj=pipeline, \
+    rep.rule("every PROJ pipeline of 1..L steps over (operator kind x {none, inv, omit_fwd, omit_inv, inv + omit_fwd, inv + omit_inv}) x (pipeline inv, globals, + style, layout, explicit proj=pipeline, \
               modifier position): complete product; each compared (fingerprint in both directions) with the harness's independent Geodesy rendering of the non-inverted \
               pipeline (directions exchanged for pipeline-level inv). Non-trivial/distinct = distinct fingerprint");
     rep.assume("the shared operators mean the same in both syntaxes (only the translation is judged); the reference rendering puts globals before step-local values (last wins)");
@@ -314,7 +382,7 @@ pub fn run(tier: Tier) -> Report {
     enumerate(&rep, &all, 1, "all^1");
     enumerate(&rep, &all, 2, "all^2");
     match tier {
-        Tier::Quick => enumerate(&rep, &[1, 2, 4], 3, "reduced^3"),
+        Tier::Quick => enumerate(&rep, &[1, 4], 3, "two^3"),
         Tier::Thorough => {
             enumerate(&rep, &[0, 1, 2, 4, 5, 10], 3, "six^3");
             enumerate(&rep, &[1, 4], 4, "two^4");
